@@ -230,13 +230,15 @@ class Term:
         self.name = ":".join([str(component.name) for component in self.components])
 
     def __hash__(self):
-        return hash(tuple(self.components))
+        return hash(frozenset(self.components))
 
     def __eq__(self, other):
+        # The order in which the factors of an interaction are written is irrelevant:
+        # 'a:b' and 'b:a' are the same term.
         if not isinstance(other, type(self)):
             return False
         else:
-            return self.components == other.components
+            return set(self.components) == set(other.components)
 
     def __add__(self, other):
         """Addition operator. Analogous to set union.
@@ -274,7 +276,7 @@ class Term:
         # f(x) - y -> f(x)
         # f(x) - (y + z) -> f(x)
         if isinstance(other, type(self)):
-            if self.components == other.components:
+            if self == other:
                 return Model()
             else:
                 return self
